@@ -98,6 +98,12 @@ CHECKS = {
         text='Cardinalities, a WORD name and integer-range bounds are symbolic and flow writer leaf -> token of a really parsed template -> real reader; the whole writer text is tied to the pieces. '
              'Files, lexer and parser run for real in native batches over shapes, names and depth<=2 constraint trees. Bounded.',
         note='Trusted: CrossHair + patches, z3, the WORD contract (validated against the installed lexer). N<=4/5, |name|<=3/4, ints 0..99.'),
+    'C09': dict(
+        category='model_checking', design_ref='6 C09',
+        technique='CrossHair symbolic execution (z3) of the FeatureIDE / FaMa / Glencoe reader functions on documents built by independent reference emitters with symbolic cardinalities, names and surface-choice Booleans; z3 equivalence of constraints',
+        text='Reference emitters render a reference model as Element trees / dicts under symbolic surface choices (attribute presence and value, order, extra elements, n-ary rules, cardinality placement, tag case); the real readers run on them and must return the reference model. '
+             'AFM text variants and the 1299 shipped FaMa files (against Betty statistics) are concrete runs reported apart. Bounded.',
+        note='Trusted: CrossHair + patches, z3, the reference emitters in fmverif/props/c09.py. N<=4/5. FaMa/Glencoe names concrete. Corpus and AFM variants are not solver coverage.'),
 }
 
 NOT_YET = {}
